@@ -31,7 +31,7 @@ fn spec(tier: Tier) -> CheckSpec {
 		property: "C02",
 		level: "exploration",
 		rule: "exhaustive: (chain3) every chain of 3 layers over names {a,b} x member kinds (quick: 7 kinds = absent, `:`, `::`, `:::`, `+:`, self-reference, super-reference; thorough: 9 kinds) x both composition syntaxes; \
-			(chain2) every chain of 2 layers over all 12 member kinds x layer extras (object local, assert true / assert on self / assert false) x std.objectRemoveKey masks (before layer 2, after layer 2, both) x both syntaxes; thorough adds 3 names for 2 layers (7 kinds) and asserts+masks for 3 layers (4 plain kinds); \
+			(chain2) every chain of 2 layers over all 12 member kinds x layer extras (object local, assert true / assert on self / assert false) x std.objectRemoveKey masks (before layer 2, after layer 2, both; and a layer that is itself the result of a removal, alone and nested in outer removals of the same or the other key) x both syntaxes; thorough adds 3 names for 2 layers (7 kinds) and asserts+masks for 3 layers (4 plain kinds); \
 			(deep) chains of 4 and 5 layers with at most 4 non-absent members; (shared) every chain in which one layer *value* (all 12 kinds x object local x assert kinds) occurs at two positions (`m + m`, `L + m + m`, `m + L + m`, L over 7 kinds). Every composed object is probed with 23 probes (field read, objectHas, objectHasAll, in, std.get for present/absent names; objectFields, objectFieldsAll, length, objectValues, manifestation, equality with a re-layered copy, super read and `in super` from one more layer on top) and every probe result is compared with the reference object model R2. \
 			non-trivial = distinct chain text; failing chains are shrunk (members removed) and the minimal chain keys the class"
 			.into(),
@@ -59,6 +59,8 @@ pub struct LayerD {
 	pub ext: bool,
 	/// std.objectRemoveKey(prev, name) applied to everything below before this layer is added
 	pub mask_before: Option<usize>,
+	/// the layer's own literal goes through std.objectRemoveKey(<literal>, name) before it is added (forces `+` composition)
+	pub mask_self: Option<usize>,
 }
 #[derive(Clone, PartialEq, Debug)]
 pub struct Chain {
@@ -128,8 +130,12 @@ pub fn build(chain: &Chain) -> Ex {
 	for src in seq {
 		let li = src.unwrap_or(last);
 		let l = &chain.layers[li];
+		let own = |e: Ex| match l.mask_self {
+			Some(ni) => stdcall("objectRemoveKey", vec![e, s(NAMES[ni])]),
+			None => e,
+		};
 		cur = Some(match (cur, src) {
-			(None, Some(_)) => Ex::Obj(layer_body(chain, li)),
+			(None, Some(_)) => own(Ex::Obj(layer_body(chain, li))),
 			(None, None) => var("m"),
 			(Some(prev), src) => {
 				let prev = match l.mask_before {
@@ -137,8 +143,8 @@ pub fn build(chain: &Chain) -> Ex {
 					None => prev,
 				};
 				match src {
-					Some(_) if l.ext => Ex::ObjExt(Box::new(prev), layer_body(chain, li)),
-					Some(_) => bin(prev, BinOp::Add, Ex::Obj(layer_body(chain, li))),
+					Some(_) if l.ext && l.mask_self.is_none() => Ex::ObjExt(Box::new(prev), layer_body(chain, li)),
+					Some(_) => bin(prev, BinOp::Add, own(Ex::Obj(layer_body(chain, li)))),
 					None => bin(prev, BinOp::Add, var("m")),
 				}
 			}
@@ -298,6 +304,11 @@ fn chain_simplifications(c: &Chain) -> Vec<Chain> {
 			n.layers[i].mask_before = None;
 			out.push(n);
 		}
+		if l.mask_self.is_some() {
+			let mut n = c.clone();
+			n.layers[i].mask_self = None;
+			out.push(n);
+		}
 		if l.assert_kind != 0 {
 			let mut n = c.clone();
 			n.layers[i].assert_kind = 0;
@@ -326,7 +337,7 @@ fn chain_simplifications(c: &Chain) -> Vec<Chain> {
 
 fn weight(c: &Chain) -> usize {
 	c.layers.len() * 10
-		+ c.layers.iter().map(|l| l.kinds.iter().map(|k| if *k == 0 { 0 } else if *k == 1 { 2 } else { 3 }).sum::<usize>() + usize::from(l.assert_kind != 0) * 2 + usize::from(l.mask_before.is_some()) * 2 + usize::from(l.ext)).sum::<usize>()
+		+ c.layers.iter().map(|l| l.kinds.iter().map(|k| if *k == 0 { 0 } else if *k == 1 { 2 } else { 3 }).sum::<usize>() + usize::from(l.assert_kind != 0) * 2 + usize::from(l.mask_before.is_some()) * 2 + usize::from(l.mask_self.is_some()) * 2 + usize::from(l.ext)).sum::<usize>()
 		+ usize::from(c.mask_after.is_some()) * 2
 		+ usize::from(c.dup_last != 0) * 5
 }
@@ -408,7 +419,7 @@ pub fn chain_json(c: &Chain) -> Value {
 		"nnames": c.nnames,
 		"dup_last": c.dup_last,
 		"mask_after": c.mask_after,
-		"layers": c.layers.iter().map(|l| json!({"kinds": l.kinds, "assert": l.assert_kind, "ext": l.ext, "mask_before": l.mask_before})).collect::<Vec<_>>(),
+		"layers": c.layers.iter().map(|l| json!({"kinds": l.kinds, "assert": l.assert_kind, "ext": l.ext, "mask_before": l.mask_before, "mask_self": l.mask_self})).collect::<Vec<_>>(),
 	})
 }
 pub fn chain_from_json(v: &Value) -> Chain {
@@ -425,6 +436,7 @@ pub fn chain_from_json(v: &Value) -> Chain {
 				assert_kind: l["assert"].as_u64().unwrap_or(0) as u8,
 				ext: l["ext"].as_bool().unwrap_or(false),
 				mask_before: l["mask_before"].as_u64().map(|x| x as usize),
+					mask_self: l["mask_self"].as_u64().map(|x| x as usize),
 			})
 			.collect(),
 	}
@@ -456,7 +468,7 @@ fn part_chain3(shard: &Shard, journal: &Journal, rep: &mut Report) {
 			nnames: 2,
 			dup_last: 0,
 			mask_after: None,
-			layers: (0..3).map(|li| LayerD { kinds: vec![kinds[c[li * 2]], kinds[c[li * 2 + 1]]], assert_kind: 0, ext: li > 0 && c[5 + li] == 1, mask_before: None }).collect(),
+			layers: (0..3).map(|li| LayerD { kinds: vec![kinds[c[li * 2]], kinds[c[li * 2 + 1]]], assert_kind: 0, ext: li > 0 && c[5 + li] == 1, mask_before: None, mask_self: None }).collect(),
 		};
 		judge_chain(rep, &mut prober, &chain, idx % 100_003 == 0, journal, idx);
 	});
@@ -468,24 +480,40 @@ fn part_chain2(shard: &Shard, journal: &Journal, rep: &mut Report) {
 	// (assert kind of layer 1, of layer 2) and (mask before layer 2, mask after) combinations
 	let assert_all: Vec<(u8, u8)> = (0..4u8).flat_map(|a| (0..4u8).map(move |b| (a, b))).collect();
 	let assert_quick: Vec<(u8, u8)> = vec![(0, 0), (0, 3), (3, 0), (1, 2), (2, 1)];
-	let mask = |nn: usize, quick: bool| -> Vec<(Option<usize>, Option<usize>)> {
+	type M = (Option<usize>, Option<usize>, Option<usize>, Option<usize>);
+	// (removal below layer 2, removal of the result, removal applied to layer 1 alone, removal applied to layer 2 alone)
+	let mask = |nn: usize, quick: bool| -> Vec<M> {
 		if quick {
-			vec![(None, None), (Some(0), None), (None, Some(0)), (Some(1), Some(1)), (Some(0), Some(1))]
+			vec![(None, None), (Some(0), None), (None, Some(0)), (Some(1), Some(1)), (Some(0), Some(1))].into_iter().map(|(a, b)| (a, b, None, None)).collect()
 		} else {
 			let opts: Vec<Option<usize>> = std::iter::once(None).chain((0..nn).map(Some)).collect();
-			opts.iter().flat_map(|a| opts.iter().map(move |b| (*a, *b))).collect()
+			opts.iter().flat_map(|a| opts.iter().map(move |b| (*a, *b, None, None))).collect()
 		}
 	};
+	// a layer that is itself the result of a removal, alone and nested inside outer removals of the same / the other key
+	let mask_own: Vec<M> = vec![
+		(None, None, None, Some(0)),
+		(None, None, Some(0), None),
+		(None, Some(0), None, Some(0)),
+		(None, Some(0), Some(0), None),
+		(None, Some(1), None, Some(0)),
+		(Some(0), None, None, Some(0)),
+		(Some(0), Some(0), None, Some(0)),
+		(None, Some(0), Some(0), Some(0)),
+		(None, None, Some(0), Some(1)),
+	];
 	let quick = shard.tier == Tier::Quick;
 	// plan: (names, member kinds, assert combos, mask combos)
-	let mut plans: Vec<(usize, Vec<u8>, Vec<(u8, u8)>, Vec<(Option<usize>, Option<usize>)>)> = Vec::new();
+	let mut plans: Vec<(usize, Vec<u8>, Vec<(u8, u8)>, Vec<M>)> = Vec::new();
 	if quick {
-		plans.push((2, KINDS_ALL.to_vec(), vec![(0, 0)], vec![(None, None)]));
+		plans.push((2, KINDS_ALL.to_vec(), vec![(0, 0)], vec![(None, None, None, None)]));
 		plans.push((2, KINDS_QUICK3.to_vec(), assert_quick.clone(), mask(2, true)));
+		plans.push((2, KINDS_QUICK3.to_vec(), vec![(0, 0)], mask_own.clone()));
 	} else {
 		plans.push((2, KINDS_ALL.to_vec(), assert_all.clone(), mask(2, true)));
 		plans.push((2, KINDS_QUICK3.to_vec(), vec![(0, 0)], mask(2, false)));
 		plans.push((3, KINDS_QUICK3.to_vec(), vec![(0, 0), (0, 3), (3, 0)], mask(3, true)));
+		plans.push((2, KINDS_ALL.to_vec(), vec![(0, 0), (0, 3), (3, 0)], mask_own.clone()));
 	}
 	for (nn, kinds, asserts, masks) in plans {
 		let mut prober = Prober::new(nn);
@@ -500,13 +528,13 @@ fn part_chain2(shard: &Shard, journal: &Journal, rep: &mut Report) {
 			}
 			let a = nn * 2;
 			let (a1, a2) = asserts[c[a]];
-			let (mb, ma) = masks[c[a + 1]];
+			let (mb, ma, ms1, ms2) = masks[c[a + 1]];
 			let chain = Chain {
 				nnames: nn,
 				dup_last: 0,
 				mask_after: ma,
 				layers: (0..2)
-					.map(|li| LayerD { kinds: (0..nn).map(|ni| kinds[c[li * nn + ni]]).collect(), assert_kind: if li == 0 { a1 } else { a2 }, ext: li == 1 && c[a + 2] == 1, mask_before: if li == 1 { mb } else { None } })
+					.map(|li| LayerD { kinds: (0..nn).map(|ni| kinds[c[li * nn + ni]]).collect(), assert_kind: if li == 0 { a1 } else { a2 }, ext: li == 1 && c[a + 2] == 1, mask_before: if li == 1 { mb } else { None }, mask_self: if li == 0 { ms1 } else { ms2 } })
 					.collect(),
 			};
 			judge_chain(rep, &mut prober, &chain, gi % 100_003 == 0, journal, gi);
@@ -535,6 +563,7 @@ fn part_chain2(shard: &Shard, journal: &Journal, rep: &mut Report) {
 						assert_kind: [0u8, 3][c[11 + li]],
 						ext: li > 0 && c[5 + li] == 1,
 						mask_before: if li > 0 && c[7 + li] != 0 { Some(c[7 + li] - 1) } else { None },
+						mask_self: None,
 					})
 					.collect(),
 			};
@@ -558,7 +587,7 @@ fn part_deep(shard: &Shard, journal: &Journal, rep: &mut Report) {
 				let kb = ch.choose(KINDS_ALL.len() as u32) as usize;
 				// composition syntax alternates (it is crossed exhaustively in the chain3/chain2 parts)
 				let ext = li % 2 == 1;
-				layers.push(LayerD { kinds: vec![KINDS_ALL[ka], KINDS_ALL[kb]], assert_kind: 0, ext, mask_before: None });
+				layers.push(LayerD { kinds: vec![KINDS_ALL[ka], KINDS_ALL[kb]], assert_kind: 0, ext, mask_before: None, mask_self: None });
 			}
 			let gi = base + i;
 			if !shard.mine(gi) {
@@ -582,7 +611,7 @@ fn part_shared(shard: &Shard, journal: &Journal, rep: &mut Report) {
 		if !shard.mine(base + i) {
 			return;
 		}
-		let chain = Chain { nnames: 2, dup_last: 1, mask_after: None, layers: vec![LayerD { kinds: vec![KINDS_ALL[c[0]], KINDS_ALL[c[1]]], assert_kind: c[2] as u8, ext: false, mask_before: None }] };
+		let chain = Chain { nnames: 2, dup_last: 1, mask_after: None, layers: vec![LayerD { kinds: vec![KINDS_ALL[c[0]], KINDS_ALL[c[1]]], assert_kind: c[2] as u8, ext: false, mask_before: None, mask_self: None }] };
 		judge_chain(rep, &mut prober, &chain, i % 997 == 0, journal, base + i);
 	});
 	base += total;
@@ -597,8 +626,8 @@ fn part_shared(shard: &Shard, journal: &Journal, rep: &mut Report) {
 				dup_last: dup,
 				mask_after: None,
 				layers: vec![
-					LayerD { kinds: vec![KINDS_QUICK3[c[0]], KINDS_QUICK3[c[1]]], assert_kind: 0, ext: false, mask_before: None },
-					LayerD { kinds: vec![KINDS_ALL[c[2]], KINDS_ALL[c[3]]], assert_kind: [0u8, 2][c[4]], ext: false, mask_before: None },
+					LayerD { kinds: vec![KINDS_QUICK3[c[0]], KINDS_QUICK3[c[1]]], assert_kind: 0, ext: false, mask_before: None, mask_self: None },
+					LayerD { kinds: vec![KINDS_ALL[c[2]], KINDS_ALL[c[3]]], assert_kind: [0u8, 2][c[4]], ext: false, mask_before: None, mask_self: None },
 				],
 			};
 			judge_chain(rep, &mut prober, &chain, i % 9973 == 0, journal, base + i);
